@@ -38,7 +38,7 @@ from urllib.parse import unquote, urlparse
 import realcode as R
 
 U32 = 2 ** 32 - 1
-TIMEOUT = 10.0
+TIMEOUT = 30.0
 
 # ------------------------------------------------------------------------------------------------------------------------ KNOWN
 # Behaviour of the real code on the pinned HEAD that breaks a clause of the statement (checked by hand).  Each entry switches ONE
